@@ -6,6 +6,8 @@ from flow import format_calls, template_text, root_of_operand, body_is_external
 from grammar import Grammar, Hole, tokenize, TokenMatcher, arm_accepts, find_nodes
 from strsyn import StrSyn, NotSynthesisable
 
+import panics as P
+
 META = {
     "engine": "mirfacts+srcfacts+rules",
     "engines": ["mirfacts", "srcfacts", "rules"],
@@ -637,6 +639,42 @@ def token_languages(ctx, rep):
         rep.unresolved("R4", "token-rules", f"only {n} token rules found (date, ticker and the decimal tokens expected)")
 
 
+def json_reader_domain(F, rep):
+    """R5 (the JSON reader accepts what the DSL expresses): the hand-written validation behind Transaction's Deserialize may refuse
+    a share quantity or a ratio that is zero or negative and a money amount that is negative — nothing else. A reader that also
+    refuses, say, a zero price rejects the JSON rendering of a ledger the DSL parser accepts (seeded change C14-s4)."""
+    import rules.c15 as c15
+    from rules.c08 import _R
+    cands = [b for b in F.bodies.values() if b.crate == "cgt_core" and "::models::" in b.id and b.kind == "fn" and P.user_written(F, b)
+             and b.argc >= 1 and "Operation<" in b.local_ty(1) and b.ret.replace(" ", "").startswith("core::result::Result<(),alloc::string::String>")]
+    if len(cands) != 1:
+        rep.unresolved("R5", "json-validation", f"{len(cands)} functions validate an Operation for the JSON reader")
+        return
+    v = cands[0]
+    rg = _R(F).region(v, depth=2)
+    got = {}
+    for ex in rg.expansions:
+        hb, ht, conv = ex["body"], ex["tb"], ex["conv"]
+        for i, si, s in hb.assigns():
+            rv = s["rv"]
+            if rv["k"] == "agg" and rv.get("variant") == "Err" and "Result" in rv["adt"]:
+                for subj, classes in c15._guards(hb, ht, i):
+                    vf = c15._variant_field(conv(subj))
+                    if vf and vf[1]:
+                        got.setdefault(vf, set()).update(classes)
+    n = 0
+    for (variant, field), classes in sorted(got.items()):
+        n += 1
+        allowed = {"-", "0"} if field in ("amount", "ratio") else {"-"}
+        ok = classes <= allowed
+        rep.ob("R5", f"json-reader:{variant}.{field}", ok, f"refused only for sign classes {sorted(classes)}" if ok else
+               f"the JSON reader refuses {variant}.{field} when its sign is in {sorted(classes)}; the DSL (and the JSON writer) produce "
+               f"{sorted(classes - allowed)} values there, so a valid ledger's JSON rendering does not read back", v.loc(), key=f"R5:json-reader:{variant}.{field}")
+    rep.count("json_reader_refusals", n)
+    if n < 4:
+        rep.unresolved("R5", "json-reader-table", f"only {n} refusal conditions found in the JSON reader's validation (quantities and ratios expected)")
+
+
 def run(ctx, rep):
     if ctx.S is None or "error" in ctx.S["grammar"]:
         rep.unresolved("R1", "grammar", "grammar facts unavailable")
@@ -644,6 +682,7 @@ def run(ctx, rep):
         writer_vs_grammar(ctx, rep)
         token_languages(ctx, rep)
     json_names(ctx.F, rep)
+    json_reader_domain(ctx.F, rep)
     mcp_routing(ctx.F, rep)
 
 
